@@ -158,6 +158,9 @@ func (rt *runtime) tryCatchEvaluate(inner func() Value) (tryValue Value, isExcep
 // end the running script (see "Halting Problem" in the README): the script's try statements must
 // not catch it, or `for (;;) { try { ... } catch (e) {} }` could never be stopped.
 func (rt *runtime) interrupt(function func()) {
+	if function == nil {
+		return // the channel has been closed
+	}
 	defer func() {
 		if caught := recover(); caught != nil {
 			rt.halting, rt.haltValue = true, caught
